@@ -21,10 +21,9 @@ pub(super) fn cypher_equals(left: &Value, right: &Value) -> Value {
 }
 
 fn float_equals_int(float_value: f64, int_value: i64) -> bool {
-    if float_value.is_nan() || !float_value.is_finite() {
-        return false;
-    }
-    float_value == int_value as f64
+    // exact: `int_value as f64` rounds above 2^53 (2^53 + 1 would equal 2^53 as a float)
+    super::evaluator_numeric::compare_int_float(int_value, float_value)
+        == Some(std::cmp::Ordering::Equal)
 }
 
 fn cypher_equals_sequence(left: &[Value], right: &[Value]) -> Value {
